@@ -19,6 +19,8 @@ python3 translate/rs2lean_default.py /repo lean/RSVerif/Gen/SrcDefault.lean || t
 python3 translate/rs2lean_oneshot.py /repo lean/RSVerif/Gen/SrcOneShot.lean || true
 python3 translate/rs2lean_iter.py /repo lean/RSVerif/Gen/SrcIter.lean || true
 python3 translate/rs2lean_kernel.py /repo lean/RSVerif/Gen/SrcKernel.lean || true
+python3 translate/rs2lean_shards.py /repo lean/RSVerif/Gen/SrcShards.lean || true
+python3 translate/rs2lean_utils.py /repo lean/RSVerif/Gen/SrcUtils.lean || true
 mods=""
 for f in lean/RSVerif/Properties/C*.lean; do
   m=$(basename "$f" .lean)
